@@ -88,7 +88,7 @@ func genC05(rt *rapid.T) c05Case {
 	if c.GateFor == 0 && rapid.IntRange(0, 2).Draw(rt, "gate") == 0 {
 		c.GateAt = drawDur(rt, "gateAt")
 		c.GateFor = rapid.SampledFrom([]time.Duration{time.Millisecond, time.Second, 3 * time.Second}).Draw(rt, "gateFor")
-		c.GateBytes = int64(rapid.SampledFrom([]int{0, 1, 3, 9, 100, 5000}).Draw(rt, "gateBytes"))
+		c.GateBytes = int64(rapid.SampledFrom([]int{0, 1, 3, 9, 100, 4200, 5000, 9000}).Draw(rt, "gateBytes"))
 	}
 	c.Capacity = rapid.SampledFrom([]int{0, 0, 1, 64, 4096}).Draw(rt, "capacity")
 	c.InLen = rapid.SampledFrom([]int{0, 2000, 30000, 200000}).Draw(rt, "inLen")
@@ -166,7 +166,8 @@ func runC05(t fataler, c c05Case) (string, c05Result) {
 
 	type wrec struct {
 		w, n    int
-		payload []byte
+		payload []byte // pristine copy
+		orig    []byte // the slice handed to the library
 		err     error
 		start   time.Time
 		end     time.Time
@@ -174,6 +175,7 @@ func runC05(t fataler, c c05Case) (string, c05Result) {
 	}
 	var mu sync.Mutex
 	var recs []*wrec
+	midMod := ""
 
 	// the racing reader: one inbound message read in small buffers, then keeps reading
 	inPayload := tagged(31, 7, c.InLen)
@@ -265,7 +267,7 @@ func runC05(t fataler, c c05Case) (string, c05Result) {
 				}
 				payload := tagged(wi, mi, m.Len)
 				keep := append([]byte(nil), payload...)
-				r := &wrec{w: wi, n: mi, payload: keep, start: time.Now(), multi: m.Len > 4096 || len(m.Chunks) > 1}
+				r := &wrec{w: wi, n: mi, payload: keep, orig: payload, start: time.Now(), multi: m.Len > 4096 || len(m.Chunks) > 1}
 				mu.Lock()
 				recs = append(recs, r)
 				mu.Unlock()
@@ -343,6 +345,17 @@ func runC05(t fataler, c c05Case) (string, c05Result) {
 			}
 			lc.End.SetInBudget(c.GateBytes)
 			if e.sleep(c.GateFor) {
+				// the writes in flight are held in the transport right now: the slices their
+				// callers handed over must look exactly as they were handed over (another
+				// goroutine may be sending the same slice elsewhere at this moment). Virtual
+				// time has just advanced, so every writer that is in a call is blocked.
+				mu.Lock()
+				for _, r := range recs {
+					if r.end.IsZero() && midMod == "" && !bytes.Equal(r.orig, r.payload) {
+						midMod = fmt.Sprintf("writer %d seq %d (%d bytes): the caller's buffer differs from what the caller handed over WHILE the write is held up in the transport (first difference at %d)", r.w, r.n, len(r.payload), firstDiff(r.orig, r.payload))
+					}
+				}
+				mu.Unlock()
 				lc.End.SetInBudget(-1)
 			}
 		})
@@ -393,6 +406,12 @@ func runC05(t fataler, c c05Case) (string, c05Result) {
 	}
 	if ps := e.Panics(); len(ps) > 0 {
 		return "library panicked: " + ps[0], res
+	}
+	mu.Lock()
+	mm := midMod
+	mu.Unlock()
+	if mm != "" {
+		return mm, res
 	}
 	// --- the wire ---
 	wire := lc.End.InRecording()
